@@ -6,7 +6,7 @@ Testing part: go/cmd/c18 (HTTP fuzzer against a real node in a child process + m
 import json, os, re
 
 SPEC = {
-    "lean_modules": ["SemaModel.C18.Props", "SemaModel.C18.Tie"],
+    "lean_modules": ["SemaModel.C18.Props", "SemaModel.C18.Tie", "SemaModel.C18.EnumDepth"],
     "lean_dirs": ["SemaModel/C18"],
     "harness": "c18",
     "harness_args": {"quick": ["-n", 1500], "thorough": ["-n", 9000, "-deepmp", 6000000]},
@@ -29,6 +29,11 @@ SPEC = {
         "Sema.C18.C18_search_dormant", "Sema.C18.C18_search_status_live", "Sema.C18.C18_wrong_length_refused", "Sema.C18.C18_v1_by_type",
         "Sema.C18.C18_slice_bounds", "Sema.C18.C18_slice_bounds_pinned",
         "Sema.C18.C18_pin_limits", "Sema.C18.C18_pin_enums", "Sema.C18.C18_pin_chain", "Sema.C18.C18_pin_routes", "Sema.C18.C18_pin_dispatch", "Sema.C18.C18_pin_skeleton",
+        # round 4 (SemaModel/C18/EnumDepth.lean): enum-typed fields outside their set are refused (the empty string = a missing /
+        # null / "" field included); no level of a query is counted: verdicts are the same below any number of well-formed
+        # levels, and a sub-query that fails schema validation anywhere in the executed part refuses the request
+        "Sema.C18.C18_enum_missing_refused", "Sema.C18.C18_enum_empty_unaccepted",
+        "Sema.C18.C18_depth_transparent", "Sema.C18.C18_depth_status", "Sema.C18.C18_deep_bad_refused",
         # tie theorems (SemaModel/C18/Tie.lean): ProductQ.valid = the Validate generated from models/quantizer.go
         "Sema.C18.C18_tie_productQ", "Sema.C18.C18_tie_productQ_error",
     ],
